@@ -114,23 +114,35 @@ impl Run {
             ni.insert(name.to_string(), json!(o));
         }
         // C07: copies of the database
-        let dump_copy = |c: &GrafeoDB| -> (Vec<J>, Vec<J>) {
+        // (nodes, edges, outgoing adjacency [node, nbr, edge], incoming adjacency [node, nbr, edge]) of a database
+        let dump_copy = |c: &GrafeoDB| -> (Vec<J>, Vec<J>, Vec<J>, Vec<J>) {
             let mut xn: Vec<J> = c.iter_nodes().map(|n| json!([self.n_of(n.id.as_u64() as i64), n.get_property("k").map(int).unwrap_or(0), labcode_strs(n.labels.iter().map(|l| l.as_str()))])).collect();
             let mut xe: Vec<J> = c.iter_edges().map(|e| json!([self.e_of(e.id.as_u64() as i64), self.n_of(e.src.as_u64() as i64), self.n_of(e.dst.as_u64() as i64)])).collect();
+            let cs = c.session();
+            let mut xo: Vec<J> = vec![];
+            let mut xi: Vec<J> = vec![];
+            for n in c.iter_nodes() {
+                let me = self.n_of(n.id.as_u64() as i64);
+                for (nb, e) in cs.get_neighbors_outgoing(n.id) { xo.push(json!([me, self.n_of(nb.as_u64() as i64), self.e_of(e.as_u64() as i64)])); }
+                for (nb, e) in cs.get_neighbors_incoming(n.id) { xi.push(json!([me, self.n_of(nb.as_u64() as i64), self.e_of(e.as_u64() as i64)])); }
+            }
             xn.sort_by_key(|v| v.to_string());
             xe.sort_by_key(|v| v.to_string());
-            (xn, xe)
+            xo.sort_by_key(|v| v.to_string());
+            xi.sort_by_key(|v| v.to_string());
+            (xn, xe, xo, xi)
         };
         let before = dump_copy(&self.db);
         let bytes1 = self.db.export_snapshot().unwrap_or_default();
         let bytes2 = self.db.export_snapshot().unwrap_or_default();
         let mut xok = bytes1 == bytes2;
-        let (xn, xe) = match GrafeoDB::import_snapshot(&bytes1) {
+        let (xn, xe, xo, xi) = match GrafeoDB::import_snapshot(&bytes1) {
             Ok(c) => dump_copy(&c),
-            Err(_) => { xok = false; (vec![], vec![]) }
+            Err(_) => { xok = false; (vec![], vec![], vec![], vec![]) }
         };
+        let same = |d: &(Vec<J>, Vec<J>, Vec<J>, Vec<J>)| d.0 == xn && d.1 == xe && d.2 == xo && d.3 == xi;
         match self.db.to_memory() {
-            Ok(c) => { let d = dump_copy(&c); if d.0 != xn || d.1 != xe { xok = false; } }
+            Ok(c) => { let d = dump_copy(&c); if !same(&d) { xok = false; } }
             Err(_) => xok = false,
         }
         if self.sample_disk {
@@ -138,8 +150,8 @@ impl Run {
             let _ = std::fs::remove_dir_all(&dir);
             match self.db.save(&dir) {
                 Ok(()) => {
-                    match GrafeoDB::open(&dir) { Ok(c) => { let d = dump_copy(&c); if d.0 != xn || d.1 != xe { xok = false; } let _ = c.close(); } Err(_) => xok = false }
-                    match GrafeoDB::open_in_memory(&dir) { Ok(c) => { let d = dump_copy(&c); if d.0 != xn || d.1 != xe { xok = false; } } Err(_) => xok = false }
+                    match GrafeoDB::open(&dir) { Ok(c) => { let d = dump_copy(&c); if !same(&d) { xok = false; } let _ = c.close(); } Err(_) => xok = false }
+                    match GrafeoDB::open_in_memory(&dir) { Ok(c) => { let d = dump_copy(&c); if !same(&d) { xok = false; } } Err(_) => xok = false }
                 }
                 Err(_) => xok = false,
             }
@@ -148,7 +160,7 @@ impl Run {
         // the source is left unchanged by all of this
         if dump_copy(&self.db) != before { xok = false; }
         json!({"ls": ls, "as": as_, "gt": gt, "ex": ex, "no": no, "ni": ni, "nc": self.db.node_count(), "ec": self.db.edge_count(),
-               "xn": xn, "xe": xe, "xok": xok})
+               "xn": xn, "xe": xe, "xo": xo, "xi": xi, "xok": xok})
     }
 
     /// Executes one action; returns the event (with observations) or None if the action was skipped.
